@@ -5,7 +5,7 @@ from ._common import *  # noqa
 from .segments import ctrl, bern, seg_points
 from .copies import mk_path
 from .shapes import seg_view
-from .arc import mk_arc_orth, sub, dot, cross
+from .arc import mk_arc_orth, sub, dot, cross, ell
 
 NUM = lambda r: r.uniform(-50, 50)  # noqa
 
@@ -226,3 +226,124 @@ def _(E):
     P1, P2 = ctrl(segs[1], "Line"), ctrl(segs[2], "Line")
     E.ensure("point_on_the_segment_whose_interval_contains_t",
              Or(And(t <= c1, pt_eq(q, bern1(P1, t / c1))), And(t >= c1, pt_eq(q, bern1(P2, (t - c1) / (1 - c1))))))
+
+
+@family("C19/Arc.as_curves/tangent_to_the_arc_at_the_joints",
+        [(m, n, o) for m in ("as_cubic_curves", "as_quad_curves") for n in (1, 2, 3) for o in ("direct", "mirrored")],
+        funcs=["Arc.as_cubic_curves", "Arc.as_quad_curves", "Arc.point_at_t", "Arc.get_rotation", "Arc.rx", "Arc.ry",
+               "CubicBezier.__init__", "QuadraticBezier.__init__"],
+        kind="S", timeout_ms=90000, max_paths=20000,
+        note="subdivision counts 1,2,3; both orientations of the stored radius vectors (an arc mapped by a reflection "
+             "keeps pry at -90 degrees from prx); the start parameter enters through its frame contract")
+def _(E, case):
+    meth, n, orient = case
+    arc, C, U, V, k = mk_arc_orth(E)
+    E.assume(k > 0 if orient == "direct" else k < 0)
+    W = V if orient == "direct" else (-V[0], -V[1])           # the second conjugate radius in the arc's own parameter
+    sx, sy, ex, ey = E.reals("sx sy ex ey", NUM)
+    E.set(arc, "start", E.new("Point", x=sx, y=sy))
+    E.set(arc, "end", E.new("Point", x=ex, y=ey))
+    E.use_contract("Arc.get_start_t", lambda E2, a, kw: E2.real("start_t", lambda r: r.uniform(-3, 3)))
+    t0 = E.call(arc, "get_start_t")
+    out = E.items(E.call(arc, meth, n))
+    E.ensure("exactly_n_curves", len(out) == n)
+    if len(out) != n:
+        return
+    sl = arc.sweep / n
+    ts = [t0 + i * sl for i in range(n + 1)]
+
+    def on(t):
+        return ell(C, U, W, E.cos(t), E.sin(t))
+
+    def tangent(t):
+        c, s = E.cos(t), E.sin(t)
+        return (-U[0] * s + W[0] * c, -U[1] * s + W[1] * c)
+
+    E.ensure("interior_joints_are_the_arc_points_at_equal_parameter_steps",
+             And(*[pt_eq(out[i].start, on(ts[i])) for i in range(1, n)]))
+    if meth == "as_cubic_curves":
+        conds = []
+        for i, c in enumerate(out):
+            d1 = sub(pt(c.control1), pt(c.start))
+            d2 = sub(pt(c.end), pt(c.control2))
+            conds += [cross(d1, tangent(ts[i])) == 0, cross(d2, tangent(ts[i + 1])) == 0,
+                      dot(d1, tangent(ts[i])) * E.sin(sl) >= 0, dot(d2, tangent(ts[i + 1])) * E.sin(sl) >= 0]
+        E.ensure("control_points_lie_on_the_tangents_of_the_arc_at_both_ends_in_the_direction_of_travel", And(*conds))
+    else:
+        conds = []
+        for i, c in enumerate(out):
+            mid = (ts[i] + ts[i + 1]) / 2
+            m = sub(on(mid), C)
+            d = sub(pt(c.control), C)
+            conds += [cross(d, m) == 0, dot(d, m) > 0]
+        E.ensure("the_control_point_lies_on_the_ray_from_the_centre_through_the_arc_point_at_the_middle_parameter",
+                 And(*conds))
+
+
+def chain_contract(kind):
+    """frame contract of Arc.as_cubic_curves / as_quad_curves as proved by C19/Arc.as_curves/chain: n curves of the
+    requested kind, the first starting at the arc's start, the last ending at its end, consecutive ones joined, all
+    points new objects"""
+
+    def summary(E, args, kwargs):
+        arc = args[0]
+        n = args[1] if len(args) > 1 else kwargs.get("arc_required")
+        if not isinstance(n, int):
+            # the count is ceil(extent / (tau * error)): with the extent fixed at 1 rad and the default error it is 2
+            # (1 / (0.2 pi) = 1.59..); the assumption is checked for consistency by the cover of the path
+            E.assume(n == 2)
+            n = 2
+        out = []
+        cur = pt(arc.start)
+        for i in range(n):
+            nxt = pt(arc.end) if i == n - 1 else tuple(E.reals("j%d_%dx j%d_%dy" % (id(arc) % 997, i, id(arc) % 997, i), NUM))
+            f = dict(start=E.new("Point", x=cur[0], y=cur[1]), end=E.new("Point", x=nxt[0], y=nxt[1]), relative=False,
+                     smooth=False)
+            if kind == "CubicBezier":
+                f["control1"] = mk_point(E, "k%d_%da" % (id(arc) % 997, i))
+                f["control2"] = mk_point(E, "k%d_%db" % (id(arc) % 997, i))
+            else:
+                f["control"] = mk_point(E, "k%d_%dc" % (id(arc) % 997, i))
+            out.append(E.new(kind, **f))
+            cur = nxt
+        return E.list(out)
+
+    return summary
+
+
+@family("C19/Path.approximate_arcs/every_arc_replaced_rest_untouched",
+        [(m, sh) for m in ("cubics", "quads") for sh in ("A", "AL", "AA", "MA", "MAL", "MLAZ", "MALA")],
+        funcs=["Path.approximate_arcs_with_cubics", "Path.approximate_arcs_with_quads", "Path.__setitem__",
+               "Path.__getitem__", "Path.__len__", "Path._validate_connection", "Path._validate_subpath"],
+        props=["C19"], kind="S", timeout_ms=60000, uses=["C19/Arc.as_curves/chain/as_cubic_curves,2",
+                                                          "C19/Arc.as_curves/chain/as_quad_curves,2"],
+        note="representative kind sequences with an arc first, last, alone, repeated and before a close; the arcs' "
+             "extent is fixed at 1 rad (two curves at the default error), everything else symbolic")
+def _(E, case):
+    from .parser import mk_prefix, view, seg_matches
+    mode, shape = case
+    p, state, kinds = mk_prefix(E, shape)
+    segs0 = list(E.items(E.get(p, "_segments")))
+    for s in segs0:
+        if E.clsname(s) == "Arc":
+            E.set(s, "sweep", 1.0)
+    if E.is_none(E.get(segs0[0], "start")):
+        E.set(segs0[0], "start", mk_point(E, "first"))      # a fragment that begins with a drawn segment has a start
+    before = [(E.clsname(s), s, view(E, s)) for s in segs0]
+    kind = "CubicBezier" if mode == "cubics" else "QuadraticBezier"
+    E.use_contract("Arc.as_cubic_curves" if mode == "cubics" else "Arc.as_quad_curves", chain_contract(kind))
+    E.call(p, "approximate_arcs_with_" + mode)
+    after = list(E.items(E.get(p, "_segments")))
+    E.ensure("no_arc_remains", not any(E.clsname(s) == "Arc" for s in after))
+    want = []
+    for k, s, v in before:
+        want += [(kind, None, None)] * 2 if k == "Arc" else [(k, s, v)]
+    E.ensure("each_arc_became_its_chain_in_place", And(len(after) == len(want),
+                                                       *[E.clsname(a) == w[0] for a, w in zip(after, want)]))
+    if len(after) != len(want):
+        return
+    E.ensure("the_other_segments_are_the_same_objects_with_the_same_points",
+             And(*[And(E.same(a, w[1]), seg_matches(E, view(E, a), w[2])) for a, w in zip(after, want) if w[1] is not None]))
+    views = [view(E, a) for a in after]
+    E.ensure("the_path_stays_connected",
+             And(*[pt_eq(b[1], a[4]) for a, b in zip(views, views[1:]) if b[1] is not None and b[0] != "Move"]))
